@@ -441,6 +441,7 @@ func runC03(c *c03Case) (v *vcommon.Violation, nontrivial, inconclusive bool) {
 	}
 	dm, err := ref.emb.NewDMap(name)
 	if err == nil {
+		fetch0 := vFetchErrors()
 		if got, err := scanAll(ctx, dm, 7); err == nil {
 			var want []string
 			for k, e := range model {
@@ -460,7 +461,23 @@ func runC03(c *c03Case) (v *vcommon.Violation, nontrivial, inconclusive bool) {
 				// a key whose primary owner was lost lives on in its backup copy only: Get finds it there (asserted
 				// above), a scan walks the primary fragments - what a scan yields after a failover is not stated
 				if !seen[k] && (failures == 0 || len(holders[k]) > 0) {
-					return bad("scan-missing", "the final scan does not yield %s", k), nontrivial, false
+					part := ref.db.primary.PartitionByHKey(partitions.HKey(name, k))
+					diag := ""
+					for i := 0; i < part.OwnerCount(); i++ {
+						o := part.Owners()[i].String()
+						for _, m := range cl.live() {
+							if m.name == o {
+								st, ok := m.db.dmap.VerifFragmentStats(name, part.ID(), partitions.PRIMARY)
+								diag += fmt.Sprintf(" [%s fragment=%v tables=%d keys=%d has-key=%v]", o, ok, st.NumTables, st.Length, m.db.dmap.VerifCheck(name, k, partitions.PRIMARY))
+							}
+						}
+					}
+					for _, m := range cl.live() {
+						if keys := m.db.dmap.VerifKeys(name, part.ID(), partitions.PRIMARY); len(keys) > 0 {
+							diag += fmt.Sprintf(" {%s stores %v; %s}", m.name, keys, m.db.dmap.VerifDumpStorage(name, part.ID(), partitions.PRIMARY))
+						}
+					}
+					return bad("scan-missing", "the final scan does not yield %s (yields %d keys; fetch errors during the scan: %d; partition %d owners as %s sees them:%s)", k, len(got), vFetchErrors()-fetch0, part.ID(), ref.name, diag), nontrivial, false
 				}
 			}
 		}
